@@ -5,7 +5,7 @@ From Coq Require Import ZArith List String Bool.
 From Verif Require Import Value PyEq Path Filter Update Coll HistCheck HistProps ProjectSpec
                           UpdateLaws.
 From Verif.Proofs Require Import C02Base C02Walk C02FrameThm C02OpLawD C02OpLaw C02Replace
-                                 C02Store C02Step C02History.
+                                 C02Store C02Step C02History C02Full.
 Import ListNotations.
 Open Scope Z_scope.
 Open Scope string_scope.
@@ -118,15 +118,33 @@ Proof. exact c02_step_replace. Qed.
 Print Assumptions C02_replace_step.
 
 (* the history theorem, relative to the invariant being kept along the history (reach_inv)
-   and to the clock being moved by OSetClock only (clock_ok).
-   Full statement (not proved: preservation of Inv and of the clock by every operation):
-     forall pre5 ops, Forall op_wf ops ->
-       c02_reasons ops (model_obs pre5 empty_coll ops) = 0 ->
-       modelled pre5 empty_coll ops = true ->
-       c02_ok ops (model_obs pre5 empty_coll ops) = true *)
+   and to the clock being moved by OSetClock only (clock_ok) *)
 Theorem C02_history_partial : forall pre5 ops,
   reach_inv pre5 empty_coll ops -> clock_ok pre5 empty_coll ops -> Forall op_wf ops ->
   c02_reasons ops (model_obs pre5 empty_coll ops) = 0 ->
   c02_ok ops (model_obs pre5 empty_coll ops) = true.
 Proof. exact history_sound_partial. Qed.
 Print Assumptions C02_history_partial.
+
+(* the two premises hold of every history of well-formed arguments that creates no TTL index
+   (guard bit 4).  op_wf (Proofs/C02History.v): every document / filter an operation can put
+   into the store (inserted documents, update and replacement documents, filters of update,
+   replace, find_one_and_* and bulk requests) has no repeated key in any sub-document, i.e. is
+   a Python dict; Refuted/C02.v shows the theorem false on the model without that. *)
+Theorem C02_reach_inv : forall pre5 ops,
+  Forall op_wf ops -> existsb ttl_create ops = false -> reach_inv pre5 empty_coll ops.
+Proof. exact reach_inv_all. Qed.
+Print Assumptions C02_reach_inv.
+
+Theorem C02_clock_ok : forall pre5 ops,
+  Forall op_wf ops -> existsb ttl_create ops = false -> clock_ok pre5 empty_coll ops.
+Proof. exact clock_ok_all. Qed.
+Print Assumptions C02_clock_ok.
+
+(* the history theorem *)
+Theorem C02_history : forall pre5 ops,
+  Forall op_wf ops ->
+  c02_reasons ops (model_obs pre5 empty_coll ops) = 0 ->
+  c02_ok ops (model_obs pre5 empty_coll ops) = true.
+Proof. exact history_sound. Qed.
+Print Assumptions C02_history.
